@@ -78,7 +78,8 @@ ReqBlock(mm, e, f, i, x, es) ==
          x1 == [x EXCEPT !.sid = f.sid, !.hdrSeen = @ + 1, !.es = @ + (IF es THEN 1 ELSE 0), !.grant = mm.srvIW, !.rGrant = mm.cliIW]
          m1 == IF i # 0 THEN [PutR(mm, i, x1) EXCEPT !.lastSid = IF f.sid > @ THEN f.sid ELSE @] ELSE mm
          c1 == FlagIf(m1, f.hbad, "C02:request-block-undecodable")
-         c2 == FlagIf(c1, i = 0 /\ ~f.hbad, "C02:request-without-caller")
+         c1b == FlagIf(c1, f.tsover, "C18:header-table-size-limit-not-obeyed (the encoder's table is larger than the limit it acknowledged)")
+         c2 == FlagIf(c1b, i = 0 /\ ~f.hbad, "C02:request-without-caller")
          c3 == FlagIf(c2, f.sid % 2 = 0 \/ f.sid <= mm.lastSid, "C02:stream-id-not-fresh-odd-increasing")
          c4 == FlagIf(c3, i # 0 /\ x.hdrSeen >= 1, "C11:request-headers-sent-twice")
          c5 == FlagIf(c4, isNew /\ ~f.hbad /\ ValueOf(f.fields, B_method) # g.method, "C02:method-differs")
